@@ -13,7 +13,8 @@ import AcbModel.Lemmas.FxCivil
 import AcbModel.Lemmas.FxExamples
 import AcbModel.Fx.Row
 import AcbModel.Fx.Json
-namespace Acb.Fx
+namespace Acb
+open Fx
 
 /-! ### Side conditions on constants taken from the source (regenerated on every run) -/
 
@@ -248,4 +249,4 @@ example : let b : Boc := { noon := fun _ => some [(2457500, 13/10)], daily := fu
     jsonRemote b 2016 = some [⟨2457500, 13/10⟩] ∧ jsonRemote b 2017 = some [⟨2457800, 5/4⟩] := by
   decide +kernel
 
-end Acb.Fx
+end Acb
